@@ -87,6 +87,11 @@ CHECKS = {
    text='Bounded exhaustive exploration of a deck family aimed at the interleavings of pruning, de-duplication, caching and inlining (patently empty cells at level 0, as fillers, nested, shared by two containers, complement of a lattice cell, duplicated surface cards, flagged surfaces unused or de-duplicated away) times all inlining / de-duplication configurations and the three --skip options, plus the states of the generators of eight other checks; every written file is parsed by an independent reader and must satisfy each clause of the statement (ids defined once, references resolved, counts right, no surface on both sides, finite numbers, GEOMCOMP partition, COMPOSITION count).',
    note='Trusted: TRIPOLI-4 input conventions (DESIGN 5); the reader is written from them, not from the writer. The same structural report is a side condition of every other check.',
    tech='explicit choice-tree enumeration of decks x option sets; total structural report of every written file'),
+
+ 'C18': dict(cat='model_checking', ref='4/C18',
+   text='Explicit enumeration of ALL histories of length <= 3 (quick) / 4 (thorough) over 8 colliding (deck, options) items, each history in one fresh interpreter, every step compared byte-for-byte with the golden output of its item from a fresh process; a fingerprint of the interpreter-global state of the MIP / t4_geom_convert modules is taken after every step (closure argument: if every transition returns to the initial fingerprint the reachable state set is one state and the result extends to histories of any length); every item is additionally converted in fresh processes under 16 / 128 PYTHONHASHSEED values; input bytes, mtime and directory listing are compared around every run.',
+   note='Trusted: header lines are excluded from the comparison; --cache is not in the alphabet. The fingerprint covers module attributes, class attributes, function defaults and closures of the converter modules (not third-party modules).',
+   tech='explicit-state enumeration of conversion histories and hash seeds over fresh processes; byte comparison with golden outputs'),
 }
 NA_REASON = 'check not built yet in this build round (planned, see DESIGN.md section 4); no claim is made'
 
